@@ -2,3 +2,7 @@ import Dtr.Props.C09
 #print axioms Dtr.C09_body_no_panic
 #print axioms Dtr.C09_no_panic
 #print axioms Dtr.C09_header_total
+#print axioms Dtr.C09_terminates
+#print axioms Dtr.C09_total
+#print axioms Dtr.C09_error_spans_valid
+#print axioms Dtr.C09_parsed_spans_valid
